@@ -138,6 +138,20 @@ func Dump(repo, spec string) int {
 	for _, h := range loopHeaders(fn) {
 		r2 := an.EnumPathsTo(fn, h, nil, h, func(s *an.PathState) {
 			fmt.Printf("ITER(header %d) %s stop=%v\n  facts: %s\n", h.Index, s.BlockPath(), s.StopBlock != nil, s.FactsString())
+			for _, e := range s.Events {
+				var as []string
+				for _, a := range e.Args {
+					as = append(as, a.String())
+				}
+				fmt.Printf("   %s %s(%s)\n", e.Kind, shortName(e.Callee), strings.Join(as, ", "))
+			}
+			for _, in := range h.Instrs {
+				if phi, ok := in.(*ssa.Phi); ok {
+					if t := s.PhiIn(phi); t != nil {
+						fmt.Printf("   next %s = %s\n", s.T(phi).K, t.K)
+					}
+				}
+			}
 		})
 		fmt.Printf("iteration mode header %d: %+v\n", h.Index, r2)
 	}
